@@ -6,5 +6,6 @@ cd /verif/harness
 cp /repo/go.sum .
 mkdir -p /verif/bin /verif/evidence
 go build -tags verif -o /verif/bin/vcheck .
+go build -race -tags verif -o /verif/bin/vcheck-race .
 java -cp /opt/veriftools/tla/tla2tools.jar tlc2.TLC -h >/dev/null 2>&1 || true
 echo setup ok
